@@ -2,8 +2,8 @@ package vh
 
 import (
 	"crypto/sha256"
-	"fmt"
 	"encoding/json"
+	"fmt"
 )
 
 // BFS is the explicit-state explorer for sequential APIs (engine E4).
